@@ -85,7 +85,7 @@ PROPS["C02"] = dict(
     "signer quorum S; correct signers report what such a history allows. Expected: (k, Some(h)) unless the certificate for k is "
     "reported, then number k+1. All (Q,B,S) triples are enumerated for the 6 x weight-1 committee; other committees (1-12 validators, "
     "four weight families) are sampled. Every result is also compared with a reference written from spec/informal-spec/types.rs, on "
-    "history-consistent and on arbitrary assignments. Counters prove the sub-quorum boundary (exactly at / one below / two sub-quorums) was hit.",
+    "history-consistent and on arbitrary assignments. Counters prove the sub-quorum boundary (exactly at / one below / two sub-quorums) was hit. Byzantine leaders also attach, to a forced re-proposal, a payload the replicas have seen (and cached) for that block number in an earlier view.",
     assumptions=[
         "the history model (which high votes / certificates correct validators can report after a commit quorum) is the induction hypothesis of the ChonkyBFT safety argument",
         "held on the generated certificates only; complete only over (Q,B,S) of the 6-validator committee, with sampled report alphabets",
@@ -203,7 +203,7 @@ PROPS["C17"] = dict(
     "checked: every started task ended before its scopes returned; result = root value / an error some task returned that is not provably later than another / re-raised "
     "panic; cancellation observed only after a trigger, and every waiter released. Every task writes a cell borrowed from the caller's frame as its last action, so an "
     "early return is a use-after-free: the same binary runs under Miri (-Zmiri-seed per shard varies the schedule), ThreadSanitizer (-Zbuild-std) and AddressSanitizer, "
-    "where any report fails the run.",
+    "where any report fails the run. Deadline scenarios on manual clocks: a caller context with a 10 s deadline (inherited or tightened to 5 s; on the root's clock or on an independent clock of its own) runs a scope whose root task, background task and nested scopes wait for cancellation; one clock is advanced by 3 / 7 / 11 s and the scope must return iff a deadline has passed on the caller's own clock or on an ancestor's.",
     assumptions=["tokio is trusted; a clean Miri/TSan/ASan run means no report on the reached code, not memory safety", "held on the generated programs and observed interleavings only"],
     stages=[
         dict(name="native", flavour="release", **CONC),
@@ -303,7 +303,7 @@ PROPS["C14"] = dict(
     "sometimes drop early, respond and close. Checked per stream: bytes received == bytes sent (complete, in order, once), no foreign word ever, end-of-stream only after the counterpart "
     "closed, concurrently open streams <= min(local, peer limit), nothing opens with limit 0; a virtual-time deadlock is a violation. (flood) a raw peer written in the harness completes "
     "the mux handshake, opens a stream and floods 3 MB of DATA without ever reading while the application never consumes: bytes pulled from the transport must stay within "
-    "read_buffer_size + one frame + headers.",
+    "read_buffer_size + one frame + headers. A quarter of the stream queues have a finite local OPEN rate (burst 1-3): the limiter is local and must not influence how stream ids are partitioned.",
     assumptions=["held on the generated interleavings (deterministic current-thread runtime; schedule diversity comes from the transport script and task plans)"],
     stages=[dict(name="mux", flavour="release", **NET)],
     floors={"quick": {"transient_streams_completed": 3000, "capabilities_that_reached_their_stream_limit": 200, "capabilities_with_mismatched_limits": 200, "capabilities_with_zero_limit": 50, "flood_with_open_cases": 100, "connections_with_streams_in_both_directions": 100},
